@@ -237,6 +237,11 @@ pub fn run(opts: &Opts) -> i32 {
             ("exit-code-of-the-wrong-type", "let v = \"s\" in\n  ! (process/exit) v", false),
             ("second-component-of-a-pair", "let g = { fn (p : Int64 * Int64) => ret p } in\n  do y <- ! g ((1 : Int64), \"s\");\n  ! (process/exit) (0 : Int64)", false),
             ("constructor-argument", "begin\n    let Zb = data | +Box : Int64 end that\n    let v = (+Box(\"s\") : Zb) in\n    ! (process/exit) (0 : Int64)\n  end", false),
+            // structural (co)data types are compared name by name, whatever the declaration order
+            ("codata-same-names-other-types", "begin\n    let P = codata | .name : Ret String | .age : Ret Int64 end that\n    let R = codata | .age : Ret String | .name : Ret Int64 end that\n    let bob : Thk P = { comatch | .name => ret \"bob\" | .age => ret (3 : Int64) end } that\n    let show = { fn (r : Thk R) => do s <- ! r .age; do t <- ! (string/append) s \" years\"; ! (process/exit) (0 : Int64) } that\n    ! show bob\n  end", false),
+            ("codata-permuted-control", "begin\n    let P = codata | .name : Ret String | .age : Ret Int64 end that\n    let R = codata | .age : Ret Int64 | .name : Ret String end that\n    let bob : Thk P = { comatch | .name => ret \"bob\" | .age => ret (3 : Int64) end } that\n    let show = { fn (r : Thk R) => do s <- ! r .name; do t <- ! (string/append) s \" years\"; do a <- ! r .age; ! (process/exit) a } that\n    ! show bob\n  end", true),
+            ("data-same-names-other-types", "begin\n    let P = data | +N : String | +A : Int64 end that\n    let R = data | +A : String | +N : Int64 end that\n    let v : P = +A((3 : Int64)) that\n    let show = { fn (r : R) => match r | +A(s) => do t <- ! (string/append) s \" years\"; ! (process/exit) (0 : Int64) | +N(n) => ! (process/exit) n end } that\n    ! show v\n  end", false),
+            ("data-permuted-control", "begin\n    let P = data | +N : String | +A : Int64 end that\n    let R = data | +A : Int64 | +N : String end that\n    let v : P = +A((3 : Int64)) that\n    let show = { fn (r : R) => match r | +A(n) => ! (process/exit) n | +N(s) => ! (process/exit) (0 : Int64) end } that\n    ! show v\n  end", true),
             ("constructor-argument-control", "begin\n    let Zb = data | +Box : Int64 end that\n    let v = (+Box((3 : Int64)) : Zb) in\n    ! (process/exit) (0 : Int64)\n  end", true),
         ] {
             probes.push((name.to_string(), format!("{pre}begin\n  {body}\nend\n"), ok));
